@@ -70,8 +70,7 @@ Theorem C03_plain_arguments_split_on_commas : forall s,
 Proof. exact split_plain. Qed.
 Print Assumptions C03_plain_arguments_split_on_commas.
 Theorem C03_indexed_repeat_source_constants :
-  PX.Gen.Lexer.INDEXED_REPEAT_ABSOLUTE_ARGS = ABSOLUTE_ARG_POSITIONS /\
-  PX.Gen.Lexer.RE_INDEXED_REPEAT_PATTERN = [105;110;100;101;120;101;100;45;114;101;112;101;97;116;92;40;40;63;58;91;94;40;41;93;124;92;40;40;63;58;91;94;40;41;93;124;92;40;91;94;40;41;93;42;92;41;41;42;92;41;41;43;92;41]%N.
+  PX.Gen.Lexer.INDEXED_REPEAT_ABSOLUTE_ARGS = ABSOLUTE_ARG_POSITIONS /\ PX.Gen.Lexer.INDEXED_REPEAT_CALL = PX.Model.FindCalls.KW.
 Proof. exact indexed_repeat_constants_pinned. Qed.
 Print Assumptions C03_indexed_repeat_source_constants.
 
@@ -107,3 +106,15 @@ Theorem C03_argument_found_holds_position : forall args p i, arg_index args p = 
   exists pre a post, args = pre ++ a :: post /\ i = length pre /\ start_after pre <= p < start_after pre + length a.
 Proof. exact argument_found_holds_position. Qed.
 Print Assumptions C03_argument_found_holds_position.
+
+(* ---- how the calls are found: by counting parentheses from the keyword (Model/FindCalls.v; source pinned, op S.find_calls) ---- *)
+Require Import PX.Model.FindCalls PX.Proofs.FindCalls.
+(* the arguments of a call may nest parentheses to ANY depth: scanning from the opening parenthesis ends exactly at the one that closes it *)
+Theorem C03_balanced_arguments_closed : forall body post, balanced body -> close_paren 1 (body ++ RPc :: post) = Some (S (length body)).
+Proof. exact balanced_arguments_closed. Qed.
+Print Assumptions C03_balanced_arguments_closed.
+Theorem C03_first_call_found : forall pre body post,
+  find_sub KW (pre ++ KW ++ body ++ RPc :: post) = Some (length pre) -> balanced body ->
+  exists more, find_calls (pre ++ KW ++ body ++ RPc :: post) = (length pre, (length pre + 15 + S (length body))%nat) :: more.
+Proof. exact first_call_found. Qed.
+Print Assumptions C03_first_call_found.
